@@ -2,7 +2,10 @@
    The model (Machine.v, Merge.v, ArrayShift.v) is executable Gallina; its extraction is run against the real
    momo code on every check (props/C10/harness.cpp vs ocaml/driver.ml). *)
 From Coq Require Import ZArith List Permutation.
-From C10 Require Import Machine Merge MergeProofs ArrayShift ArrayProofs MapModel MapProofs FastMerge FastPtr FastPtrProofs BulkOps.
+From C10 Require Import Machine Merge MergeProofs ArrayShift ArrayProofs MapModel MapProofs FastMerge FastPtr FastPtrProofs BulkOps HolderRefine.
+From MomoCommon Require GenPrelude.
+From C10 Require Gen_Holder Gen_HolderTree.
+Notation GOk := GenPrelude.Ok. Notation GStuck := GenPrelude.Stuck. Notation GExn := GenPrelude.Exn.
 Import ListNotations.
 Local Open Scope Z_scope.
 
@@ -439,3 +442,90 @@ Theorem C10_no_copy_when_movable_remove_pred :
   forall c p src w n, nothrow_reloc c = true -> no_copy (tr w) -> no_copy (tr (r_w (rrun c p n (rinit src w)))).
 Proof. exact remove_pred_no_copy. Qed.
 Print Assumptions C10_no_copy_when_movable_remove_pred.
+
+(* ---- the extracted-item holder: GENERATED state machine (Gen_Holder.v = cxx2coq translation of SetExtractedItem::IsEmpty / Clear /
+   Create / Remove, regenerated from the headers on every run) *)
+(* Remove requires an item, the remover (which may throw) runs while mHasItem is STILL TRUE, afterwards the holder is empty *)
+Theorem C10_gen_holder_remove_spec :
+  forall g, Gen_Holder.Remove true g = GOk (tt, false, true) /\ Gen_Holder.Remove false g = GStuck.
+Proof. exact gen_remove_spec. Qed.
+Print Assumptions C10_gen_holder_remove_spec.
+
+(* Create requires an empty holder, the creator (which may throw) runs while mHasItem is STILL FALSE, afterwards it is full *)
+Theorem C10_gen_holder_create_spec :
+  forall g, Gen_Holder.Create false g = GOk (tt, true, false) /\ Gen_Holder.Create true g = GStuck.
+Proof. exact gen_create_spec. Qed.
+Print Assumptions C10_gen_holder_create_spec.
+
+(* frame of the remaining operations that touch the flag: Clear always empties, IsEmpty only reads *)
+Theorem C10_gen_holder_clear_isempty_spec :
+  forall f g, Gen_Holder.Clear f g = false /\ Gen_Holder.IsEmpty f g = negb f.
+Proof. exact gen_clear_isempty_spec. Qed.
+Print Assumptions C10_gen_holder_clear_isempty_spec.
+
+(* refinement: the generated functions are the hand model's holder steps on the abstracted state (flag <-> option item), both for
+   a functor that returns and for one that throws *)
+Theorem C10_gen_holder_remove_refines :
+  forall flag g h, R flag h ->
+    match Gen_Holder.Remove flag g with
+    | GStuck => h_remove false h = GStuck /\ h_remove true h = GStuck
+    | GOk (_, flag', at_call) =>
+        (exists h', h_remove false h = GOk h' /\ R flag' h') /\ h_remove true h = GExn /\ R at_call (h_remove_after_throw h)
+    | _ => False
+    end.
+Proof. exact remove_refines. Qed.
+Print Assumptions C10_gen_holder_remove_refines.
+
+Theorem C10_gen_holder_create_refines :
+  forall flag g h x, R flag h ->
+    match Gen_Holder.Create flag g with
+    | GStuck => h_create false h x = GStuck
+    | GOk (_, flag', at_call) =>
+        (exists h', h_create false h x = GOk h' /\ R flag' h') /\ h_create true h x = GExn /\ R at_call h
+    | _ => False
+    end.
+Proof. exact create_refines. Qed.
+Print Assumptions C10_gen_holder_create_refines.
+
+Theorem C10_insert_handle_uses_holder_step :
+  forall c multi w dst x w' dst' h' st, insert_holder c multi w dst (Some x) = (w', dst', h', st) ->
+    (h' = None /\ h_remove false (Some x) = GOk h' /\ dst' = dst ++ [x]) \/ (h' = h_remove_after_throw (Some x) /\ dst' = dst).
+Proof. exact insert_holder_uses_h_remove. Qed.
+Print Assumptions C10_insert_handle_uses_holder_step.
+
+(* Add(pos, ExtractedItem&&): handle (+) container conserved, the item leaves the handle only when it went in *)
+Theorem C10_add_handle_conservation :
+  forall c w dst h w' dst' h' st, add_holder c w dst h = (w', dst', h', st) ->
+    Permutation (holder_items h' ++ dst') (holder_items h ++ dst) /\
+    (h' = h /\ dst' = dst \/ exists x, h = Some x /\ h' = None /\ dst' = dst ++ [x] /\ st = Finished).
+Proof. exact add_holder_conservation. Qed.
+Print Assumptions C10_add_handle_conservation.
+
+(* stdish insert(hint, node&&) as fixed in 9f37105: a refused / failed element stays in the caller's node handle *)
+Theorem C10_std_insert_hint_keeps_refused_node :
+  forall c multi w dst h hint_ok w' dst' h' st, std_insert_hint c multi w dst h hint_ok = (w', dst', h', st) ->
+    Permutation (holder_items h' ++ dst') (holder_items h ++ dst) /\
+    (h' = h /\ dst' = dst \/ exists x, h = Some x /\ h' = None /\ dst' = dst ++ [x]).
+Proof. exact std_insert_hint_keeps_refused. Qed.
+Print Assumptions C10_std_insert_hint_keeps_refused_node.
+
+(* ... and the logic before 9f37105 is refuted in the model: the refused node comes back empty, the element is gone *)
+Theorem C10_std_insert_hint_before_9f37105_refuted :
+  let r := std_insert_hint_old NTM false (W [] [] [] []) [102] (Some 101) false in
+  snd (fst r) = None /\ snd (fst (fst r)) = [102] /\
+  ~ Permutation (holder_items (snd (fst r)) ++ snd (fst (fst r))) (holder_items (Some 101) ++ [102]).
+Proof. exact std_insert_hint_old_loses_refused_node. Qed.
+Print Assumptions C10_std_insert_hint_before_9f37105_refuted.
+
+Theorem C10_no_copy_when_movable_std_insert_hint :
+  forall c multi w dst h hint_ok w' dst' h' st, nothrow_reloc c = true -> no_copy (tr w) ->
+    std_insert_hint c multi w dst h hint_ok = (w', dst', h', st) -> no_copy (tr w').
+Proof. exact std_insert_hint_no_copy. Qed.
+Print Assumptions C10_no_copy_when_movable_std_insert_hint.
+
+(* same-code: the TreeSet holder instantiation is the same generated function as the HashSet one *)
+Theorem C10_gen_holder_same_code_tree_hash :
+  Gen_HolderTree.Remove = Gen_Holder.Remove /\ Gen_HolderTree.Create = Gen_Holder.Create /\
+  Gen_HolderTree.Clear = Gen_Holder.Clear /\ Gen_HolderTree.IsEmpty = Gen_Holder.IsEmpty.
+Proof. exact holder_same_code. Qed.
+Print Assumptions C10_gen_holder_same_code_tree_hash.
